@@ -79,6 +79,8 @@ class BoolV(Val):
 class TupV(Val):
     items: list
     is_list: bool = False
+    names: tuple = ()  # field names of a typing.NamedTuple / collections.namedtuple instance
+    rowview: bool = False  # the generic row of a 2-D array whose rows all have this form (np.tile(v, (n, 1)) ...)
 
 
 @dataclass
@@ -112,6 +114,27 @@ class LambdaV(Val):
     node: object
     env: object
     module: object
+
+
+@dataclass
+class GenV(Val):
+    """A generator object: the call of a generator function, not yet run (its body is executed by the consumer)."""
+
+    info: object
+    bound: dict
+    self_val: object
+    env: object
+    owner: object
+    consumed: bool = False
+
+
+@dataclass
+class PartialV(Val):
+    """functools.partial(func, *args, **kwargs)"""
+
+    func: object
+    args: list
+    kwargs: dict
 
 
 @dataclass
